@@ -142,8 +142,53 @@ class Inliner:
     def _block(self, stmts, stack, depth):
         out = []
         for s in stmts:
-            out += self._stmt(s, stack, depth)
+            for s2 in self._hoist_arg_call(s, stack):
+                out += self._stmt(s2, stack, depth)
         return out
+
+    def _hoist_arg_call(self, s, stack):
+        """`acc.append(self.helper(a, b))`: the helper call that is an
+        argument of the statement's call gets a statement of its own
+        (`__arg_k = self.helper(a, b)`) when everything evaluated before it
+        is free of effects, so that a helper of several statements can be
+        written out in place."""
+        if not isinstance(s, (ast.Expr, ast.Assign, ast.Return)) or \
+                not isinstance(getattr(s, "value", None), ast.Call):
+            return [s]
+        outer = s.value
+
+        def pure(e):
+            return not any(isinstance(n, (ast.Call, ast.Await, ast.Yield,
+                                          ast.YieldFrom, ast.NamedExpr))
+                           for n in ast.walk(e))
+        if not pure(outer.func) or outer.keywords:
+            return [s]
+        for i, a in enumerate(outer.args):
+            if isinstance(a, ast.Call):
+                r = self._resolve(a)
+                if r is None:
+                    return [s]
+                how, name, fn = r
+                if name in self.primitives or name in stack or \
+                        not self._inlinable(fn) or self._is_gen(fn) or \
+                        isinstance(fn, ast.AsyncFunctionDef):
+                    return [s]
+                if self._single_return(fn) is not None:
+                    return [s]        # written out as an expression anyway
+                if not all(pure(x) for x in outer.args[i + 1:]):
+                    return [s]
+                self.n += 1
+                tmp = "__arg_%d" % self.n
+                pre = ast.copy_location(ast.Assign(
+                    [ast.Name(tmp, ast.Store())], a), s)
+                s2 = acopy(s)
+                s2.value.args[i] = ast.Name(tmp, ast.Load())
+                ast.fix_missing_locations(pre)
+                ast.fix_missing_locations(s2)
+                return [pre, s2]
+            if not pure(a):
+                return [s]
+        return [s]
 
     def _unwrap(self, e):
         """(kind, call) for Call / Await(Call) / YieldFrom(Call)."""
